@@ -18,8 +18,8 @@ BOXES = [([0.0, 0.0, 0.0], [1.0, 1.0, 1.0]),
 BOUND = ("real StandardCombi with TrapezoidalGrid + Integration; d in {1,2,3}; 1<=lmin<=lmax<=4 (d=3: lmax<=3); 3 boxes (unit, negative/non-unit "
          "anisotropic, [-3,7.3]x[-3,pi]x[-3,1]); boundary points on/off; quick: every (d,lmin,lmax,boundary) on one box (rotating) and "
          "(lmin,lmax) in {(1,2),(2,3)} on every box; thorough: every combination. Per configuration ALL nodal unit functions and ALL "
-         "hierarchical hat functions of the sparse grid are used (one vector-valued Function with 2N outputs, N = number of sparse-grid "
-         "points); evaluation points: every sparse-grid point, 24 fixed off-grid probe points (incl. points on coarse grid lines and near "
+         "hierarchical hat functions of the sparse grid and one smooth function are used (one vector-valued Function with 2N+1 outputs, N = number "
+         "of sparse-grid points); evaluation points: every sparse-grid point, 24 fixed off-grid probe points (incl. points on coarse grid lines and near "
          "the boundary), and the full tensor grid of level-lmax coordinates for interpolate_grid. Plus (clause B.counts only) the "
          "configuration where the box handed to StandardCombi ends one ulp below the b of the grid (DESIGN 9-4)")
 RULE = BOUND + ("; one case = (d, lmin, lmax, box, boundary); non-trivial = the scheme has >= 2 component grids (d>=2 and lmin<lmax); tolerances: interpolated "
@@ -28,8 +28,8 @@ BUDGET = {"quick": 60.0, "thorough": 800.0}
 
 CLAUSES = {
     "B.total": "perform_operation, __call__, interpolate_grid, get_points_component_grid, get_points_and_weights(_component_grid) return normally",
-    "B.nodal.call": "point-wise __call__: the combined interpolant of every nodal unit function e_p equals delta_pq at every sparse-grid point q",
-    "B.nodal.grid": "interpolate_grid on the tensor grid of level-lmax coordinates: same at every tensor point that is a sparse-grid point",
+    "B.nodal.call": "point-wise __call__: the combined interpolant of every nodal unit function e_p equals delta_pq at every sparse-grid point q; a smooth function that is non-zero on the boundary is reproduced at every sparse-grid point",
+    "B.nodal.grid": "interpolate_grid on the tensor grid of level-lmax coordinates: same (unit functions and smooth function) at every tensor point that is a sparse-grid point",
     "B.hat.interp": "every hierarchical hat function with level in the index set is reproduced at the off-grid probe points and at all sparse-grid points (__call__) and at every point of the tensor grid (interpolate_grid)",
     "B.hat.integral": "perform_operation integrates every such hat function exactly (closed form prod_i h_i, h_i/2 for boundary hats)",
     "B.points.union": "the union of get_points_component_grid over the scheme == the independently enumerated sparse grid; every component grid has distinct points on the level-l lattice",
@@ -136,21 +136,27 @@ class Oracle:
         return [tuple(float(self.a[i] + f[i] * (self.b[i] - self.a[i])) for i in range(self.d)) for f in fr]
 
 
+def smooth(X):
+    """an 'arbitrary' function: smooth, not in the hat space, non-zero on the boundary"""
+    X = np.asarray(X, dtype=float)
+    return np.prod(1.3 + np.sin(2.1 * X + np.arange(X.shape[1])), axis=1, keepdims=True)
+
+
 def make_function(orc):
     from sparseSpACE.Function import Function
 
     class NodalAndHats(Function):
         def output_length(self):
-            return 2 * orc.N
+            return 2 * orc.N + 1
 
         def eval(self, coordinates):
             X = np.asarray(coordinates, dtype=float).reshape(1, orc.d)
-            return np.hstack([orc.nodal(X), orc.hats(X)])[0]
+            return np.hstack([orc.nodal(X), orc.hats(X), smooth(X)])[0]
 
         def eval_vectorized(self, coordinates):
             C = np.asarray(coordinates, dtype=float)
             X = C.reshape(-1, orc.d)
-            return np.hstack([orc.nodal(X), orc.hats(X)]).reshape(C.shape[:-1] + (2 * orc.N,))
+            return np.hstack([orc.nodal(X), orc.hats(X), smooth(X)]).reshape(C.shape[:-1] + (2 * orc.N + 1,))
     return NodalAndHats()
 
 
@@ -182,8 +188,9 @@ def run_case(ctx, case):
     if "result" not in st:
         return
     result = st["result"]
-    ctx.check("B.hat.integral", result.shape == (2 * N,) and bool(np.all(np.abs(result[N:] - orc.hat_integral) <= TOL * orc.hat_integral)),
-              S_PERF, tag + "-hat-integral", "worst relative error %s" % (np.max(np.abs(result[N:] - orc.hat_integral) / orc.hat_integral) if result.shape == (2 * N,) else result.shape))
+    ctx.check("B.hat.integral", result.shape == (2 * N + 1,) and bool(np.all(np.abs(result[N:2 * N] - orc.hat_integral) <= TOL * orc.hat_integral)),
+              S_PERF, tag + "-hat-integral", "worst relative error %s" % (
+                  np.max(np.abs(result[N:2 * N] - orc.hat_integral) / orc.hat_integral) if result.shape == (2 * N + 1,) else result.shape))
 
     # ---- point-wise interpolation at all sparse-grid points and the probes
     sp = [tuple(float(v) for v in c) for c in orc.centers]
@@ -193,14 +200,18 @@ def run_case(ctx, case):
             st["vals"] = np.asarray(combi(sp + probes), dtype=float)
     if "vals" in st:
         vals = st["vals"]
-        ok_shape = vals.shape == (N + len(probes), 2 * N)
+        ok_shape = vals.shape == (N + len(probes), 2 * N + 1)
         dev = np.abs(vals[:N, :N] - np.eye(N)) if ok_shape else None
+        if ok_shape:
+            gs = smooth(orc.centers)[:, 0]
+            ctx.check("B.nodal.call", bool(np.all(np.abs(vals[:N, 2 * N] - gs) <= TOL * 2.3 ** d)), S_CALL, tag + "-arbitrary-function",
+                      "smooth function not reproduced at the sparse-grid points: worst deviation %s" % np.max(np.abs(vals[:N, 2 * N] - gs)))
         ctx.check("B.nodal.call", ok_shape and bool(np.all(dev <= TOL)), S_CALL, tag + "-nodal",
                   "shape %s; worst deviation from identity %s at (point,function) %s" % (
                       vals.shape, dev.max() if ok_shape else None, np.unravel_index(np.argmax(dev), dev.shape) if ok_shape else None))
         if ok_shape:
             want = orc.hats(np.array(sp + probes))
-            devh = np.abs(vals[:, N:] - want)
+            devh = np.abs(vals[:, N:2 * N] - want)
             ctx.check("B.hat.interp", bool(np.all(devh <= TOL)), S_CALL, tag + "-hat-call",
                       "worst deviation %s at (point,function) %s" % (devh.max(), np.unravel_index(np.argmax(devh), devh.shape)))
 
@@ -212,17 +223,18 @@ def run_case(ctx, case):
     if "gvals" in st:
         g = st["gvals"]
         T = np.array(list(itertools.product(*coords))).reshape(-1, d)          # own enumeration: first dimension slowest
-        ok_shape = g.shape == (len(T), 2 * N)
+        ok_shape = g.shape == (len(T), 2 * N + 1)
         if ok_shape:
             j = orc.sparse_number(T)
             m = j >= 0
             dev = np.abs(g[m][:, :N] - np.eye(N)[j[m]])
+            dev = np.hstack([dev, np.abs(g[m][:, 2 * N:] - smooth(T[m])) / 2.3 ** d])
             ctx.check("B.nodal.grid", int(m.sum()) == N and bool(np.all(dev <= TOL)), S_GRID, tag + "-nodal-grid",
                       "sparse points found in tensor grid %d of %d, worst deviation %s" % (m.sum(), N, dev.max() if dev.size else None))
-            devh = np.abs(g[:, N:] - orc.hats(T))
+            devh = np.abs(g[:, N:2 * N] - orc.hats(T))
             ctx.check("B.hat.interp", bool(np.all(devh <= TOL)), S_GRID, tag + "-hat-grid", "worst deviation %s" % devh.max())
         else:
-            ctx.check("B.nodal.grid", False, S_GRID, tag + "-grid-shape", "shape %s, expected %s" % (g.shape, (len(T), 2 * N)))
+            ctx.check("B.nodal.grid", False, S_GRID, tag + "-grid-shape", "shape %s, expected %s" % (g.shape, (len(T), 2 * N + 1)))
 
     # ---- points of the component grids, coefficient sums, counts
     coeff = np.zeros(N)
@@ -282,8 +294,10 @@ def run_case(ctx, case):
                 e1 = np.max(np.abs(per_point - result[:N])) / vol
                 hatq = orc.hats(P).T @ W
                 e2 = np.max(np.abs(hatq - orc.hat_integral) / orc.hat_integral)
-                good = e1 <= 1e-12 and e2 <= TOL
-                msg += "combined weight vs integral of nodal function: %s (rel. to volume); hat quadrature rel. error %s" % (e1, e2)
+                e3 = abs(float(smooth(P)[:, 0] @ W) - result[2 * N]) / (vol * 2.3 ** d)
+                good = e1 <= 1e-12 and e2 <= TOL and e3 <= 1e-12
+                msg += ("combined weight vs integral of nodal function: %s (rel. to volume); hat quadrature rel. error %s; "
+                        "sum W g(P) vs reported integral of the smooth function: %s" % (e1, e2, e3))
             else:
                 msg += "points outside the sparse grid"
         ctx.check("B.weights.consistent", good, S_PW, tag + "-points-weights", msg)
